@@ -6,7 +6,9 @@
                       copy whose Touch succeeds, fall through to NextWritable().Put)
      unix_volume.go   Compare/stat/getFunc (stat, open, close), Touch (open, flock, utimes, unflock,
                       close), WriteBlock (MkdirAll, TempFile, each write of the copy loop, Close, Chtimes,
-                      Rename; on a read error: Close, Remove), IndexTo (names ^[0-9a-f]{32}$ only)
+                      OpenFile of the block path and — if a file is there — flock of it (since /repo
+                      a9eb270), Rename, deferred unflock and Close of the old file; on a read error:
+                      Close, Remove), IndexTo (names ^[0-9a-f]{32}$ only)
      pipe_adapters.go putWithPipe: the writer side sees the whole buffer then EOF, or — when the request
                       context ends first — a prefix and then a non-EOF error ([source])
    One block name h, body of L bytes whose digest is h ("Good").  A stored file is Good (exactly the
@@ -54,13 +56,19 @@ Fixpoint write_steps (i : nat) (L : N) (done : nat) (n : nat) : list (string * e
   | S n' => ("WriteBlock:write:tmpfile", EWrite i (N.min L (N.of_nat (S done) * CHUNK))) :: write_steps i L (S done) n'
   end.
 
-(* WriteBlock on volume i *)
-Definition write_block (i : nat) (L : N) (src : source) : list (string * eff) * bool :=
+(* WriteBlock on volume i; [ex] = a file is at the block path (it is opened and flocked before the
+   rename, unlocked and closed by deferred calls afterwards) *)
+Definition lock_steps (ex : bool) : list (string * eff) :=
+  ("WriteBlock:v.os.OpenFile", ENone) :: (if ex then [("WriteBlock:v.lockfile", ENone)] else []).
+Definition unlock_steps (ex : bool) : list (string * eff) :=
+  if ex then [("WriteBlock:defer:v.unlockfile", ENone); ("WriteBlock:defer:old.Close", ENone)] else [].
+Definition write_block (i : nat) (L : N) (src : source) (ex : bool) : list (string * eff) * bool :=
   let pre := [("WriteBlock:os.MkdirAll", EMkdir i); ("WriteBlock:v.os.TempFile", ECreate i)] in
   match src with
   | Complete =>
       (pre ++ write_steps i L 0 (nwrites L) ++
-       [("WriteBlock:tmpfile.Close", ENone); ("WriteBlock:os.Chtimes", ENone); ("WriteBlock:v.os.Rename", ERename i)], true)
+       [("WriteBlock:tmpfile.Close", ENone); ("WriteBlock:os.Chtimes", ENone)] ++ lock_steps ex ++
+       [("WriteBlock:v.os.Rename", ERename i)] ++ unlock_steps ex, true)
   | FailsAfter w =>
       (pre ++ write_steps i L 0 (Nat.min w (nwrites L)) ++
        [("WriteBlock:tmpfile.Close", ENone); ("WriteBlock:v.os.Remove", ERemoveTmp i)], false)
@@ -117,7 +125,9 @@ Definition put_prog (vs : list vold) (L : N) (src : source) : list (string * eff
     let '(t, ok) := compare_and_touch vs 0 in
     if ok then (t, true)
     else match nth_writable vs (Nat.modulo 1 n) 0 with
-         | Some i => let '(w, ok') := write_block i L src in (t ++ w, ok')
+         | Some i =>
+           let ex := match nth_error vs i with Some v => match d_blk v with Some _ => true | None => false end | None => false end in
+           let '(w, ok') := write_block i L src ex in (t ++ w, ok')
          | None => (t, false)
          end
     end
